@@ -293,6 +293,14 @@ func runOverlap(c overlapCase) *rp.Fail {
 		rec.mu.Lock()
 		rec.onEvent = func(ix uint32) {
 			if int(ix) == 1+c.Events {
+				// (malformed datagrams arrive while this callback is busy: they go to the error callback, and do not keep the
+				// listener from stopping)
+				for k := 0; k < c.Malformed; k++ {
+					sender.Write([]byte{0x17, 0x20, byte(k), 3, 4, 5, 6, 7, 8, 9})
+				}
+				if c.Malformed > 0 {
+					time.Sleep(30 * time.Millisecond)
+				}
 				q <- os.Interrupt
 				select {
 				case <-returned:
@@ -343,6 +351,8 @@ func sweepOverlap(yield func(overlapCase) bool) {
 		{Kind: "two-sites", Events: 5, Debug: true},
 		{Kind: "restart-while-callback-busy", Events: 0, Debug: true},
 		{Kind: "stop-from-callback", Events: 4, Debug: true},
+		{Kind: "stop-from-callback", Events: 2, Malformed: 1},
+		{Kind: "stop-from-callback", Events: 3, Malformed: 5, Debug: true},
 	}
 	if ev.Thorough() {
 		for n := 1; n <= 6; n++ {
